@@ -592,3 +592,38 @@ func init() {
 		},
 	}
 }
+
+func init() {
+	props["C06"] = &PropSpec{
+		ID: "C06",
+		Jobs: func(tier string) []*Job {
+			var js []*Job
+			sets := []int{0, 7, 10, 11}
+			maxLp, maxLn := 4, 3
+			if tier == "thorough" {
+				sets = []int{0, 1, 3, 5, 7, 9, 10, 11, 14, 15, 17, 19, 22, 25}
+				maxLp, maxLn = 6, 4
+			}
+			for _, s := range sets {
+				for stage := 0; stage < 4; stage++ {
+					for lp := 2; lp <= maxLp; lp++ {
+						js = append(js, &Job{Harness: "C06Parked", Params: map[string]int{"set": s, "stage": stage, "lh": 0, "lp": lp, "ln": maxLn - 1}})
+					}
+					js = append(js, &Job{Harness: "C06Parked", Params: map[string]int{"set": s, "stage": stage, "lh": 2, "lp": 3, "ln": maxLn}})
+				}
+			}
+			return js
+		},
+		Bounds: func(tier string) string {
+			if tier == "thorough" {
+				return "14 corpus routers (routes alternately GET/POST, redirect-trailing-slash on, 405 and auto-OPTIONS on) x a write transaction parked at 4 stages (just opened; after Handle+Delete+Truncate; inside Updates; after Txn.Snapshot and Txn.Iter) x every read entry point (ServeHTTP in 4 methods, Lookup, Clone, Reverse, Has, Route, Len, Stats, Iter.All/Methods/Prefix/Routes/Reverse, View with all Txn reads, read-only Txn with Snapshot/Commit/Abort) on every path of 2..6 bytes, host of 0 or 2 bytes and pattern of 3..4 bytes; plus: a second writer does block"
+			}
+			return "4 corpus routers (routes alternately GET/POST, redirect-trailing-slash on, 405 and auto-OPTIONS on) x a write transaction parked at 4 stages (just opened; after Handle+Delete+Truncate; inside Updates; after Txn.Snapshot and Txn.Iter) x every read entry point (ServeHTTP in 4 methods, Lookup, Clone, Reverse, Has, Route, Len, Stats, Iter.All/Methods/Prefix/Routes/Reverse, View with all Txn reads, read-only Txn with Snapshot/Commit/Abort) on every path of 2..4 bytes, host of 0 or 2 bytes and pattern of 2..3 bytes; plus: a second writer does block"
+		},
+		RequiredCovers: []string{"all read entry points completed while a writer was parked"},
+		Assumptions: []string{
+			"sync.Mutex modelled: Lock on a mutex held by the parked writer is reported as blocked-forever (deadlock violation); blocking inside the Go runtime, sync.Pool or atomics is outside the model",
+			"the parked writer and the reader are the same executor thread: no scheduling is involved, the claim is that no read path acquires the writer lock (or any lock the writer holds) for any input in the bounds",
+		},
+	}
+}
